@@ -21,14 +21,22 @@ def log(*a):
     print(*a, flush=True)
 
 
-def run(cmd, cwd=None, env=None, timeout=None, capture=True, stdin=None):
+def _limit_mem(gb):
+    def f():
+        import resource
+        resource.setrlimit(resource.RLIMIT_AS, (gb << 30, gb << 30))
+    return f
+
+
+def run(cmd, cwd=None, env=None, timeout=None, capture=True, stdin=None, mem_gb=None):
     e = dict(os.environ)
     e.update({"CARGO_NET_OFFLINE": "true"})
     if env:
         e.update(env)
     try:
         p = subprocess.run(cmd, cwd=cwd, env=e, timeout=timeout, stdout=subprocess.PIPE if capture else None,
-                           stderr=subprocess.STDOUT if capture else None, text=True, errors="replace", input=stdin)
+                           stderr=subprocess.STDOUT if capture else None, text=True, errors="replace", input=stdin,
+                           preexec_fn=_limit_mem(mem_gb) if mem_gb else None)
     except subprocess.TimeoutExpired as x:
         raise ToolError("timeout after %ss: %s" % (timeout, " ".join(cmd)))
     return p.returncode, (p.stdout or "")
@@ -64,7 +72,8 @@ def binpath(profile="release", name="hx"):
 
 def hx(args, profile="release", timeout=1800, check=True):
     build(profile)
-    rc, out = run([binpath(profile)] + [str(a) for a in args], timeout=timeout)
+    # the harness runs the code under test: bound its address space so that a runaway cannot take the machine down
+    rc, out = run([binpath(profile)] + [str(a) for a in args], timeout=timeout, mem_gb=24)
     if check and rc != 0:
         raise ToolError("harness failed rc=%s: hx %s\n%s" % (rc, " ".join(map(str, args)), out[-3000:]))
     return rc, out
